@@ -1,16 +1,25 @@
 #!/bin/bash
-# check.sh <ID> <quick|thorough>: rebuild the checker against /repo's current
-# working tree (replace directive => every edit is picked up) and run it.
+# check.sh <ID> <quick|thorough>: rebuild the checker against the library's current
+# working tree (go.mod replace => /repo, so every edit is picked up) and run it.
+# VERIF_REPO=<dir> (side runs only, e.g. seed evaluation) builds against a scratch copy
+# of the library instead; set VERIF_OUT as well so that evidence/ is not overwritten.
 set -u
 cd "$(dirname "$0")"
 export GOFLAGS=-mod=mod GOPROXY=off GOSUMDB=off GOTOOLCHAIN=local
 export VERIF_ROOT="$PWD"
 ID="$1"; TIER="${2:-quick}"
-mkdir -p bin evidence
-if ! go build -o bin/vcheck ./cmd/vcheck 2> bin/build.err; then
-  echo "BUILD-FAILED (the tree does not compile with the checker; no verdict)"; cat bin/build.err; exit 2
+REPO="${VERIF_REPO:-/repo}"
+mkdir -p bin evidence .work
+BIN=bin/vcheck; MODFLAG=""
+if [ "$REPO" != "/repo" ]; then
+  TAG=$(echo "$REPO" | md5sum | cut -c1-8)
+  sed "s#=> /repo#=> $REPO#" go.mod > .work/alt_$TAG.mod; cp go.sum .work/alt_$TAG.sum
+  MODFLAG="-modfile=$PWD/.work/alt_$TAG.mod"; BIN=bin/vcheck_$TAG
 fi
 case "$ID" in
   C18) exec ./c18.sh "$TIER" ;;
 esac
-exec ./bin/vcheck "$ID" "$TIER"
+if ! go build $MODFLAG -o $BIN ./cmd/vcheck 2> $BIN.err; then
+  echo "BUILD-FAILED (the tree does not compile with the checker; no verdict)"; cat $BIN.err; exit 2
+fi
+exec ./$BIN "$ID" "$TIER"
